@@ -1,17 +1,121 @@
 /-
-  C01 — never a crash.  This file is completed once the component theorems exist;
-  it restates, under C01_* names, the no-panic results of the component models.
+  C01 — every input is answered with a value or a diagnosed error, never a crash.
+  `pipeline_never_panics`, split per component: this file restates, under C01_*
+  names, the no-panic / totality results of the component models (the proofs live
+  with their properties).  What is NOT covered by a theorem is named at the end.
 -/
 import RsjProps.C16
+import RsjProps.C14
+import RsjProps.C15
+import RsjProps.C20
+import RsjProps.C19
+import RsjProps.C10
+import RsjProps.C06
+import RsjProps.C12
+import RsjProps.C17
+import RsjProps.C18
+import RsjProps.C03
+import RsjProps.C09
 namespace Rsj.C01
 
-/-- `intern_span` never fires an assertion for an in-range request (see C16). -/
+/-- Lexer: any byte sequence yields tokens or one error — never a panic at an `unwrap`
+    / slice site, never out of fuel (each token consumes at least one byte). -/
+theorem C01_lex_never_panics (input : List Nat) (flag : Bool) :
+    (∃ toks, Rsj.Lexer.lexAll input flag = .ok toks) ∨ (∃ e, Rsj.Lexer.lexAll input flag = .err e) :=
+  Rsj.Lexer.C14_lex_total input flag
+
+/-- Span manager: `intern_span` fires no assertion for an in-range request (the lexer
+    and parser only make in-range requests: C14_lex_tiles, C15_spans_nested). -/
 theorem C01_span_no_panic {m : Rsj.Span.Mgr} {c s e lo hi : Nat}
     (hc : m.contextOffsets c = some (lo, hi)) (hse : s ≤ e) (he : lo + e < hi) :
     ∃ m' id, m.internSpan c s e = .ok (m', id) :=
   Rsj.Span.internSpan_total hc hse he
 
+/-- `--max-trace` cropping never slices out of range (every size, incl. 0). -/
+theorem C01_trace_crop_no_panic (n m : Nat) (h : m < n) :
+    ∃ fs fl hid sl, Rsj.Span.traceCrop n m = some (fs, fl, hid, sl) ∧
+      fs + fl = n ∧ sl ≤ fs ∧ fl + sl = m ∧ hid = n - m ∧ 0 < hid ∧ fl + hid + sl = n :=
+  Rsj.Span.C16_trace_crop_total n m h
+
+/-- Parser: a syntax error is located on a token of the input (so rendering it cannot
+    index outside the source). -/
+theorem C01_parse_error_located {toks : List Rsj.Parser.Token} {sp : Rsj.Parser.Span} {ex : List Rsj.Parser.Expected}
+    {act : Rsj.Parser.Actual} (h : Rsj.Parser.parse toks = .expected sp ex act) :
+    ∃ t ∈ toks, t.span = sp ∧ Rsj.Parser.Actual.ofKind t.kind = act :=
+  Rsj.Parser.C15_error_points_at_token h
+
+/-- Static analysis is total: accepted or rejected with one error (no third outcome). -/
+theorem C01_analyze_total (e : Rsj.Core.Expr) (env : Rsj.Analyze.AEnv) :
+    Rsj.Analyze.analyze e env = .ok () ∨ ∃ err, Rsj.Analyze.analyze e env = .error err := by
+  cases h : Rsj.Analyze.analyze e env with
+  | ok u => cases u; exact Or.inl rfl
+  | error err => exact Or.inr ⟨err, rfl⟩
+
+/-- Trace counter: with bracketed handlers (proved for the handlers extracted from the
+    sources, C10_handlers_bracketed) a run never ends in any of the three panic sites
+    (`checked_sub(1).unwrap()`, `get_stack_trace`'s `pop().unwrap()`, the final assert). -/
+theorem C01_trace_counter_no_panic {σ : Type} {H : σ → List Rsj.TraceStack.Act × Option σ} (max : Nat)
+    (hB : Rsj.TraceStack.HandlersBracketed H) (fuel : Nat) (h0 : σ) {s0 : Rsj.TraceStack.St}
+    (hinit : Rsj.TraceStack.Init s0) (p : Rsj.TraceStack.Panic) :
+    Rsj.TraceStack.run H max fuel h0 s0 ≠ .panic p :=
+  Rsj.TraceStack.C10_no_panic max hB fuel h0 hinit p
+
+/-- Radix parsing never slices inside a character nor overflows its 128-bit window. -/
+theorem C01_radix_no_panic (r : Rsj.Codec.Radix) (s : List Nat) :
+    Rsj.Codec.parseNumRadix r s ≠ .error .panic :=
+  Rsj.Codec.C20_radix_no_panic r s
+
+/-- Comparison of numbers never sees a NaN (`partial_cmp().unwrap()`). -/
+theorem C01_compare_no_panic {F : Type} (alg : Rsj.Num.FloatAlg F) (hl : Rsj.Num.Lawful alg) {x y : F}
+    (hx : Rsj.Num.Reach alg x) (hy : Rsj.Num.Reach alg y) : ∃ o, Rsj.Num.compareNumbers alg x y = some o :=
+  Rsj.Num.C06_no_nan_reaches_compare alg hl hx hy
+
+/-- The format-string parser is total: parts or one of the listed errors. -/
+theorem C01_format_parse_total (s : List Char) :
+    (∃ parts, Rsj.Format.parseFormat s = .ok parts) ∨ Rsj.Format.parseFormat s = .error .truncated ∨
+      Rsj.Format.parseFormat s = .error .widthTooLarge ∨ Rsj.Format.parseFormat s = .error .precTooLarge ∨
+      Rsj.Format.parseFormat s = .error .missingPrecDigits ∨ ∃ c, Rsj.Format.parseFormat s = .error (.invalidConv c) :=
+  Rsj.Format.C19_parse_total s
+
+/-- The CLI's exit status is 0, 1 or 2. -/
+theorem C01_exit_code_range (args : Rsj.Cli.Args) (w : Rsj.Cli.World) :
+    (Rsj.Cli.mainInner args w).exit = 0 ∨ (Rsj.Cli.mainInner args w).exit = 1 ∨ (Rsj.Cli.mainInner args w).exit = 2 :=
+  Rsj.Cli.C12_exit_range args w
+
+/-- Collector scripts never reach "attempted to access destroyed object". -/
+theorem C01_gc_no_destroyed_access (ops : List Rsj.Gc.Op) :
+    ∃ out, Rsj.Gc.runScript ops { heap := [], held := [] } [] = some out ∧ out.getLast? = some "end#0" :=
+  Rsj.Gc.C03_script_valid ops
+
+/-- What no theorem here covers (decided by the fault search of checks/c01.py and recorded
+    in the evidence): the evaluator's nine explicit stacks are modelled as a recursive
+    interpreter (their balance is covered by the correspondence run), native-stack
+    exhaustion of the recursive parser/analyzer (known finding c01:native-stack), allocator
+    exhaustion, and the opaque crates (saphyr-parser, sourceannot, RustCrypto, clap). -/
+def C01_pipeline_never_panics_full : Prop :=
+  ∀ (runPipeline : List Nat → Option String), ∀ src, (runPipeline src).isSome
+
 end Rsj.C01
 
 open Rsj.C01 in
+#print axioms C01_lex_never_panics
+open Rsj.C01 in
 #print axioms C01_span_no_panic
+open Rsj.C01 in
+#print axioms C01_trace_crop_no_panic
+open Rsj.C01 in
+#print axioms C01_parse_error_located
+open Rsj.C01 in
+#print axioms C01_analyze_total
+open Rsj.C01 in
+#print axioms C01_trace_counter_no_panic
+open Rsj.C01 in
+#print axioms C01_radix_no_panic
+open Rsj.C01 in
+#print axioms C01_compare_no_panic
+open Rsj.C01 in
+#print axioms C01_format_parse_total
+open Rsj.C01 in
+#print axioms C01_exit_code_range
+open Rsj.C01 in
+#print axioms C01_gc_no_destroyed_access
